@@ -745,6 +745,13 @@ class Node(object):
         """
         Rerouts a preempted individual
         """
+        if individual.is_blocked:
+            node_blocked_to = self.simulation.nodes[individual.destination]
+            node_blocked_to.blocked_queue.remove((self.id_number, individual.id_number))
+            node_blocked_to.len_blocked_queue -= 1
+            self.simulation.statetracker.change_state_release(self, node_blocked_to, individual, True)
+            individual.is_blocked = False
+            self.simulation.statetracker.change_state_accept(self, individual)
         next_node = self.next_node_for_rerouting(individual)
         self.write_interruption_record(individual, destination=next_node.id_number)
         self.release(individual, next_node, reroute=True)
